@@ -467,6 +467,19 @@ example :
     (runSched true 0 [] 2 9 init {} [] evs).2.recv = [[0x61], [0x62], [0x63], [0x64]] ∧
     (runSched true 0 [] 2 9 init {} [] evs).2.forced = 0 := by decide
 
+/-- **Client disconnect.**  The HTTP handler closes `seq.quit` and stops reading when the client goes
+    away.  Whenever that happens (after any part `e1` of the script, under any schedule and capacity),
+    the chunks the reader holds are a prefix, as a list of chunks, of the chunks `run` streams for
+    the whole script `e1 ++ e2` — so all the safety clauses (valid UTF-8 chunks, prefix of the
+    generated text, no stop inside) hold for what a disconnecting client received.  (What the decode
+    loop does after the disconnect — `DoneReasonConnectionClosed` — is not modelled: the select in
+    `flushPending` is then nondeterministic; it cannot change what the reader already holds.) -/
+theorem disconnect_prefix (pinned : Bool) (limit : Int) (stops : List Bytes) (cap tail : Nat)
+    (sched : List Nat) (e1 e2 : List Ev) :
+    (runSched pinned limit stops cap tail init {} sched e1).2.recv <+:
+      (run pinned limit stops init (e1 ++ e2)).out :=
+  received_prefix_any_time pinned limit stops cap tail sched e1 e2
+
 /-- **The stream of a sequence does not depend on its batch-mates.**  `runSkips` is `run` with
     `skips[i]` extra calls of processBatch before the i-th sampling step in which the sequence is in
     `s.seqs` but not sampled (its input did not fit into the batch next to the other sequences); only
